@@ -227,7 +227,7 @@ func genUpload(r *common.Rand, o *progOpts, b, n string) *uploadSpec {
 // runStep draws one step from the weighted kinds, executes it and returns what it refuted ("" if nothing).
 func runStep(r *common.Rand, e *exec, o *progOpts) string {
 	total := 0
-	kinds := []string{"upload", "overwrite", "delete", "delete_absent", "patch", "patch_absent", "compose", "copy", "burst", "noop"}
+	kinds := []string{"upload", "overwrite", "delete", "delete_absent", "patch", "patch_absent", "compose", "copy", "burst", "patch_burst", "noop"}
 	for _, k := range kinds {
 		total += o.W[k]
 	}
@@ -291,6 +291,17 @@ func runStep(r *common.Rand, e *exec, o *progOpts) string {
 				if msg := e.patch(b, n, genPatchFields(r), model.Conds{}); msg != "" {
 					return msg
 				}
+			}
+		}
+		return ""
+	case "patch_burst":
+		n, ok := pickLive()
+		if !ok {
+			return ""
+		}
+		for i, k := 0, r.Range(2, 5); i < k; i++ {
+			if msg := e.patch(b, n, genPatchFields(r), model.Conds{}); msg != "" {
+				return msg
 			}
 		}
 		return ""
